@@ -83,9 +83,18 @@ def _table_records(project, fi, f):
         elts = [deref(c) for c in n.elts]
         seqs = [(c, _float_seq(c)) for c in elts]
         seqs = [(c, v) for c, v in seqs if v is not None]
-        scal = [const_value(c) for c in elts if const_value(c) is not None]
+        def scalar_of(c):
+            v = const_value(c)
+            if v is not None:
+                return v
+            txt = ast.unparse(c).replace(" ", "")
+            if txt in ("np.inf", "numpy.inf", "math.inf", "float('inf')", 'float("inf")', "inf"):
+                return float("inf")  # 'no upper bound': the last rule
+            return None
+        scal = [scalar_of(c) for c in elts if scalar_of(c) is not None]
         if len(seqs) == 2 and len(seqs[0][1]) == len(seqs[1][1]) and len(elts) == 2 + len(scal) and len(scal) <= 1:
-            return (scal[0] if scal else None, seqs[0], seqs[1])
+            thr_ = scal[0] if scal else None
+            return (None if thr_ == float("inf") else thr_, seqs[0], seqs[1])
         return None
 
     roots = [f]
@@ -371,13 +380,28 @@ def check_guards(project: Project, rep):
     rep.floor("KN-GUARD", 3)
     # regime split
     splits = []
+    from .common import expand_locals as _xl
     for n in ast.walk(f):
-        if isinstance(n, ast.If) and isinstance(n.test, ast.Compare) and len(n.test.ops) == 1 \
-                and isinstance(n.test.left, ast.Call) and ast.unparse(n.test.left.func) in ("abs", "np.abs") \
-                and isinstance(n.test.ops[0], ast.Lt):
-            c = const_value(n.test.comparators[0])
-            if c is not None and c < 1:
-                splits.append((n, c))
+        if isinstance(n, ast.If) and isinstance(n.test, ast.Compare) and len(n.test.ops) == 1 and isinstance(n.test.ops[0], ast.Lt):
+            left = _xl(f, n.test.left)   # `abs_r < 0.925` with abs_r = abs(r) computed once
+            if isinstance(left, ast.Call) and ast.unparse(left.func) in ("abs", "np.abs", "numpy.abs", "np.fabs", "math.fabs"):
+                c = const_value(n.test.comparators[0])
+                if c is not None and c < 1:
+                    splits.append((n, c))
+    # KN-SIGNED: the series integrates over arcsin(r) with the *signed* correlation; |r| there evaluates the mirrored
+    # distribution for every negative correlation below the split
+    asins = [n for n in ast.walk(f) if isinstance(n, ast.Call) and ast.unparse(n.func) in ("np.arcsin", "numpy.arcsin", "math.asin")
+             and n.args]
+    for a_ in asins:
+        arg = _xl(f, a_.args[0])
+        if any(isinstance(x, ast.Call) and ast.unparse(x.func) in ("abs", "np.abs", "numpy.abs", "np.fabs", "math.fabs", "np.absolute")
+               for x in ast.walk(arg)):
+            rep.refuted("KN-SIGNED", fi, a_, f"the series is taken over arcsin({ast.unparse(arg)[:60]}): the sign of the correlation is "
+                                             f"lost, so every covariance with −0.925 < r < 0 is evaluated as if r were +|r| (the "
+                                             f"mirrored distribution: 1/3 instead of 1/6 at the mean for r = −0.5)",
+                        construct=f"{fi.qualname}: arcsin of an absolute value")
+        else:
+            rep.discharged("KN-SIGNED", fi, a_, "the series is taken over arcsin of the signed correlation")
     if len(splits) == 1 and abs(splits[0][1] - SPLIT) < 1e-15:
         rep.discharged("KN-REGIME", fi, splits[0][0], "series for |r| < 0.925, tail expansion otherwise (Genz)")
     elif splits:
